@@ -159,6 +159,14 @@ def _scenarios() -> list[Scn]:
             S.append(Scn(f"climate.target_via_shift({mode.name},step={step})", build, lambda d, v: d.set_target_temperature(v), lambda d: d.setpoint_shift, tgts,
                          lambda q, r, image=image: nearest_ok(q - 21.0, r, image), prepare=prep, pairs=False,
                          feedback=lambda d, v: [("1/5/5", DPTBase.parse_transcoder("temperature").to_knx(21.0 + (d.setpoint_shift or 0.0)))]))  # type: ignore[union-attr]
+    # a thermostat whose setpoint shift can only be read (state address), with a writable target temperature: the target is set
+    # directly, whatever the shift says
+    for mode in (SetpointShiftMode.DPT6010, SetpointShiftMode.DPT9002):
+        prep_ro = [("1/5/5", DPTBase.parse_transcoder("temperature").to_knx(21.0)), ("1/5/9", DPTArray((2,)) if mode is SetpointShiftMode.DPT6010 else DPTBase.parse_transcoder("temperature").to_knx(0.2))]  # type: ignore[union-attr]
+        S.append(Scn(f"climate.target(read-only-shift,{mode.name})",
+                     lambda x, mode=mode: D.Climate(x, "d", group_address_target_temperature="1/5/7", group_address_target_temperature_state="1/5/5", group_address_setpoint_shift_state="1/5/9", setpoint_shift_mode=mode),
+                     lambda d, v: d.set_target_temperature(v), lambda d: d.target_temperature.value, [round(19.0 + 0.5 * i, 1) for i in range(9)],
+                     lambda q, r: nearest_ok(q, r, dpt_image("temperature")), prepare=prep_ro))
     # climate mode
     ops = [HVACOperationMode.COMFORT, HVACOperationMode.STANDBY, HVACOperationMode.ECONOMY, HVACOperationMode.BUILDING_PROTECTION]
     S.append(Scn("climate_mode.operation_mode", lambda x: D.ClimateMode(x, "d", group_address_operation_mode="1/6/1"), lambda d, v: d.set_operation_mode(v), lambda d: d.operation_mode, ops, eq, pairs=True))
